@@ -42,4 +42,19 @@ LEVEL = {
              "src/label.rs and src/duration.rs by exhaustive small and random annotations, exact comparison.",
         note="Trusted: as C08; jlabel parsing is outside (labels are opaque); str::parse::<f64> exercised only through integer time stamps.",
     ),
+    "C19": dict(
+        text="Theorems over the model of VoiceSet::new and InterporationWeight: combination succeeds iff the list is non-empty and all global and per-stream "
+             "metadata equal (EmptyVoice / MetadataError otherwise); a weight update is accepted iff |sum-1| <= eps and count = nvoices, sum error first; an "
+             "accepted update stores exactly the weights and touches nothing else; a rejected update is a no-op inside any history (so previous weights stay in "
+             "force); every vector keeps nvoices entries. Tied to the code by metadata-mutated voice tuples and update histories with getters compared bitwise "
+             "and a waveform comparison after each history.",
+        note="Trusted: Lean kernel; axioms ⊆ {propext, Classical.choice, Quot.sound}; model tied by differential testing; approx::abs_diff_ne modelled as |a-b| <= eps with eps = f64::EPSILON passed in.",
+    ),
+    "C10": dict(
+        text="Theorems over the model of VoiceSet::weighted / ModelParameter::{mul, mul_add_assign}: every mean, variance and voicing weight of the result is "
+             "Σ_v w_v·p_v; weights (1,0,…) return the first voice exactly; identical voices with weights summing to 1 return that voice; a setter for one "
+             "quantity leaves the other quantities' vectors alone. Which vector Models::duration/stream/gv actually read is established by the correspondence "
+             "(independent random weights per quantity; per-voice Gaussians taken from each voice's own trees).",
+        note="Trusted: as C19; tree selection itself is C04's subject — here each voice's own get_parameter is the input.",
+    ),
 }
